@@ -1,5 +1,6 @@
 """E2 for C11 / C08 (task-spec nodes): exhaustive small universes on the real dask._task_spec."""
 import itertools
+import os
 import operator
 import pickle
 import time
@@ -28,6 +29,8 @@ def atoms():
     conts += [List([[1, 2]]), List([1, 2]), Tuple(((2, 2),)), Tuple((2, 2)), List([[TaskRef("a")]]),
               Dict({"a": 1, "b": 1}), Dict({"c": 1, "b": 1}), Dict({"b": 1}), Dict({"a": TaskRef("a"), "b": TaskRef("a")}), Dict({"z": TaskRef("a"), "b": TaskRef("a")}),
               Dict("a", 1, "a", 2), Dict("a", 2, "a", 1), Dict("a", 2), Dict([("a", 1), ("a", 2)])]   # a key given twice keeps its last value
+    # different container kinds nested in one node (one pickle), containers inside keyword arguments
+    conts += [Tuple(List(1, TaskRef("a")), 2), List(Tuple(1, 2), Set(3)), Dict({"k": List(1, 2)}), Dict({"k": Tuple(1, 2)}), List(Dict({"k": TaskRef("a")}), Tuple(TaskRef("b")))]
     return refs, lits, conts
 
 
@@ -48,6 +51,17 @@ def universe(tier):
         for b in refs[:4] + lits[:2]:
             nodes.append(Task("k", _f, x=a, y=b))
             nodes.append(Task("k", _f, a, y=b))
+            nodes.append(Task("k", _f, y=a, x=b))   # keywords written out of alphabetical order
+    from dask._task_spec import Dict, List, TaskRef, Tuple
+    # a container argument next to the plain literal of the same shape (the literal is passed through as it is)
+    nodes += [Task("k", _f, Dict({"a": TaskRef("a")})), Task("k", _f, {"a": TaskRef("a")}), Task("k", _f, List(TaskRef("a"))), Task("k", _f, [TaskRef("a")]),
+              Task("k", _f, List(1, TaskRef("a")), y=Tuple(TaskRef("b"), 2)), Task("k", _f, Tuple(1, TaskRef("a")), y=List(TaskRef("b"), 2)),
+              Dict("a", 1, "a", TaskRef("a")), Dict("a", 1, "a", TaskRef("b"))]
+    order = os.environ.get("VF_UNIVERSE_ORDER")
+    if order:
+        # which class is tokenized first in the process matters to dispatch caches: put one kind of node first
+        first = [n for n in nodes if type(n).__name__ == order]
+        nodes = first + [n for n in nodes if type(n).__name__ != order]
     return nodes
 
 
@@ -276,6 +290,21 @@ def legacy_sweep(tier, seed=0):
             msg = f"{type(e).__name__}: {e}"
         if msg:
             fails.append(rtc.Failure("convert_legacy_task", {"term": repr(term), "dict_with_reference": _has_dict_ref(term, keys - {"w"})}, "ensures", "C08-legacy-meaning-preserved", msg))
+    # task objects inside a legacy call's dict / list argument (mixed graphs): they are evaluated, whether or not a key is referenced
+    from dask._task_spec import DataNode as _DN, List as _L, Task as _T, TaskRef as _TR
+    mixed = [((_g, {"a": _T(None, _f, 41), "b": 8}), _g({"a": _f(41), "b": 8})), ((_g, {"a": _DN(None, 5)}), _g({"a": 5})),
+             ([(_g, {"a": _L(_T(None, _f, 1), 3)}), 2], [_g({"a": [_f(1), 3]}), 2]), ((_g, {"a": _T(None, _f, _TR("x")), "b": _T(None, _f, 2)}), _g({"a": _f(1), "b": _f(2)})),
+             ((_g, [_T(None, _f, 41), 8]), _g([_f(41), 8]))]
+    for term, want in mixed:
+        cases += 1
+        dsk = dict(base, w=term)
+        try:
+            got = get_sync(dsk, "w")
+            msg = None if got == want else f"converted graph computes {got!r}, evaluating the task objects inside the argument gives {want!r}"
+        except Exception as e:  # noqa
+            msg = f"{type(e).__name__}: {e}"
+        if msg:
+            fails.append(rtc.Failure("convert_legacy_task", {"term": repr(term), "dict_with_reference": False, "mixed": True}, "ensures", "C08-legacy-meaning-preserved", msg))
     # nested calls that raise: the exception of the legacy semantics (innermost call first) must come out, whatever its
     # type -- StopIteration included -- and never a value
     def _raiser(kind):
@@ -374,3 +403,34 @@ def token_history_sweep(tier, seed=0):
     return {"function": "dask/_task_spec.py: tokens of tasks over short-lived callables (real code)", "bounded": True, "bound": {"rounds": rounds, "callables": "lambda with default / closure / functools.partial, each released before the next is built"},
             "cases": cases, "distinct_nontrivial": cases, "failures_found": len(fails), "wall_s": round(time.time() - t0, 2),
             "samples": [{"native_case": {"round": 1, "callable": "function"}}], "failures": fails[:3]}
+
+
+def fresh_process_sweep(tier, seed=0):
+    """The congruence sweep again in fresh interpreters in which a different kind of node is the first thing ever
+    tokenized (Dict / Set / Task / Alias): dispatch tables that cache per class must not make identity depend on history."""
+    import json
+    import subprocess
+    import sys
+
+    t0 = time.time()
+    cases, fails = 0, []
+    code = ("import json, sys; sys.path[:0] = %r; from vf import spec_native as S; r = S.congruence_sweep('quick'); "
+            "print('RESULT ' + json.dumps({'cases': r['cases'], 'fails': [[f.args, f.detail] for f in r['failures'][:2]]}))") % ([p for p in sys.path if p],)
+    for first in ("Dict", "Set", "Tuple", "Task", "Alias"):
+        cases += 1
+        env = dict(os.environ, VF_UNIVERSE_ORDER=first)
+        try:
+            out = subprocess.run([sys.executable, "-c", code], capture_output=True, text=True, timeout=600, env=env)
+            line = [ln for ln in out.stdout.splitlines() if ln.startswith("RESULT ")]
+            if not line:
+                fails.append(rtc.Failure("GraphNode.__eq__", {"first_tokenized": first}, "exception", "crash", (out.stderr or out.stdout)[-300:]))
+                continue
+            res = json.loads(line[0][7:])
+            cases += res["cases"]
+            for a, d in res["fails"]:
+                fails.append(rtc.Failure("GraphNode.__eq__", dict(a, first_tokenized=first), "ensures", "C11-equal-nodes-compute-equal-values", f"in a fresh process whose first tokenized node is a {first}: {d}"))
+        except subprocess.TimeoutExpired:
+            fails.append(rtc.Failure("GraphNode.__eq__", {"first_tokenized": first}, "timeout", "crash", "sweep did not finish in 600 s"))
+    return {"function": "dask/_task_spec.py + dask/tokenize.py: identity of nodes in fresh processes (real code)", "bounded": True, "bound": {"fresh interpreters": 5, "first tokenized kind": "Dict / Set / Tuple / Task / Alias"},
+            "cases": cases, "distinct_nontrivial": cases, "failures_found": len(fails), "wall_s": round(time.time() - t0, 2),
+            "samples": [{"native_case": {"first_tokenized": "Dict"}}], "failures": fails[:4]}
